@@ -94,18 +94,20 @@ def matchOfData (number pos line col : Nat) (d : Data) : Match :=
   { number := number, startPos := pos, endPos := d.pos, startLine := line, endLine := d.line,
     startCol := col, endCol := d.col, value := d.cur, vars := d.env }
 
-/-- the scan of the property text: at each start position from left to right take the first
-complete match; if it exists and is non-empty report it and continue at its end, otherwise
-advance one byte; stop at the end of the text.  `none` only if `lf` was too small. -/
-def scanAll (text : Bytes) (lf : Nat) (e : Expr) : Nat → (acc : List Match) → (pos line col : Nat) → Option (List Match)
+/-- the scan of the property text, for any first-match function `att pos line col`: at each start
+position from left to right take the first complete match; if it exists and is non-empty report it
+and continue at its end, otherwise advance one byte; stop at the end of the text.  `none` only if an
+attempt answers `none`. -/
+def scanAllWith (text : Bytes) (att : Nat → Nat → Nat → Option SRes) :
+    Nat → (acc : List Match) → (pos line col : Nat) → Option (List Match)
   | 0, _, _, _, _ => none
   | f + 1, acc, pos, line, col =>
-    match attempt text lf e pos line col with
+    match att pos line col with
     | none => none
     | some (.matched d) =>
       if d.cur.length != 0 then
         let acc' := acc ++ [matchOfData (acc.length + 1) pos line col d]
-        if d.pos ≥ text.length then some acc' else scanAll text lf e f acc' d.pos d.line d.col
+        if d.pos ≥ text.length then some acc' else scanAllWith text att f acc' d.pos d.line d.col
       else step1 f acc pos line col
     | some .fail => step1 f acc pos line col
 where
@@ -113,9 +115,12 @@ where
     match readAt text pos 1 with
     | [b] =>
       if pos + 1 ≥ text.length then some acc
-      else if b = nl then scanAll text lf e f acc (pos + 1) (line + 1) 1
-      else scanAll text lf e f acc (pos + 1) line (col + 1)
+      else if b = nl then scanAllWith text att f acc (pos + 1) (line + 1) 1
+      else scanAllWith text att f acc (pos + 1) line (col + 1)
     | _ => some acc
+
+/-- the scan with the first-match semantics of the call-free pattern `e` -/
+abbrev scanAll (text : Bytes) (lf : Nat) (e : Expr) := scanAllWith text (attempt text lf e)
 
 /-- all matches of `find all e` on `text` -/
 def findAll (text : Bytes) (e : Expr) : Option (List Match) :=
